@@ -1,6 +1,6 @@
 (* Merkle/VerifyProofs.v — the L1 verifier (binary/verify.rs: path_length_from_key + the
    three-phase loop of `verify`) accepts exactly when the RFC 6962 recomputation
-   `root_from_path` from the same tuple reaches the root.  All tuples, n <= 2^63. *)
+   `root_from_path` from the same tuple reaches the root.  All tuples, n < 2^64 (the u64 range). *)
 From FV Require Import Base.Bytes Base.U64 Merkle.RFC6962 Merkle.RFCFacts Merkle.BinaryModel.
 From Coq Require Import Arith PeanoNat Lia.
 Open Scope N_scope.
@@ -312,8 +312,11 @@ Section Verify.
   Lemma firstn_app_exact {A} (l1 l2 : list A) : firstn (length l1) (l1 ++ l2) = l1.
   Proof. rewrite firstn_app, Nat.sub_diag, firstn_O, firstn_all, app_nil_r. reflexivity. Qed.
 
-  Lemma log2_le_63 t n : 2 ^ t <= n -> n <= 2 ^ 63 -> t <= 63.
-  Proof. intros H1 H2. apply (N.pow_le_mono_r_iff 2); lia. Qed.
+  Lemma log2_le_63 t n : 2 ^ t <= n -> n < 2 ^ 64 -> t <= 63.
+  Proof.
+    intros H1 H2. assert (t < 64); [|lia].
+    apply (N.pow_lt_mono_r_iff 2); [reflexivity|]. eapply N.le_lt_trans; eassumption.
+  Qed.
 
   Section Fuel.
   Variable fuel : nat.
@@ -370,7 +373,7 @@ Section Verify.
   Qed.
 
   (* the model's three phases compute the RFC recomputation whenever the latter is defined *)
-  Lemma Vloop_correct : forall n, n <= 2 ^ 63 -> forall h p i r, R h p i n = Some r -> Vloop h p i n = Some r.
+  Lemma Vloop_correct : forall n, n < 2 ^ 64 -> forall h p i r, R h p i n = Some r -> Vloop h p i n = Some r.
   Proof.
     intros n. induction n as [n IH] using (well_founded_induction N.lt_wf_0). intros Hb h p i r H.
     pose proof (R_some_lt _ _ _ _ _ H) as Hi.
@@ -504,7 +507,7 @@ Section Verify.
     destruct (nth_error (x :: p) (N.to_nat par)); reflexivity.
   Qed.
 
-  Theorem verify_iff root data p i n : n <= 2 ^ 63 ->
+  Theorem verify_iff root data p i n : n < 2 ^ 64 ->
     verify leaf_sum node_sum D_eqb root data p i n = true <-> R (leaf_sum data) p i n = Some root.
   Proof.
     intros Hb. rewrite verify_unfold.
@@ -520,7 +523,7 @@ Section Verify.
     assert (H2 : 2 <= n) by lia.
     destruct (N.leb_spec n 1) as [|_]; [lia|].
     assert (Hf : n < 2 ^ N.of_nat 70).
-    { apply N.le_lt_trans with (2 ^ 63); [exact Hb | reflexivity]. }
+    { apply N.lt_trans with (2 ^ 64); [exact Hb | reflexivity]. }
     split.
     - intros H.
       destruct (N.leb_spec n i) as [|Hi]; [destruct (negb _); discriminate|].
@@ -593,7 +596,7 @@ Section Corollaries.
 
   (* completeness: the verifier accepts the RFC audit path of every leaf of every tree *)
   Theorem verify_complete (ls : list bytes) (i : N) (d : bytes) :
-    lenN ls <= 2 ^ 63 -> nth_error ls (N.to_nat i) = Some d ->
+    lenN ls < 2 ^ 64 -> nth_error ls (N.to_nat i) = Some d ->
     verify leaf_sum node_sum D_eqb (MTH ls) d (PATH (N.to_nat i) ls) i (lenN ls) = true.
   Proof.
     intros Hb Hd. apply (verify_iff leaf_sum node_sum D_eqb D_eqb_spec); [exact Hb|].
@@ -603,7 +606,7 @@ Section Corollaries.
   Qed.
 
   (* soundness: an accepted tuple recomputes the root ... *)
-  Theorem verify_sound_rfc root data p i n : n <= 2 ^ 63 ->
+  Theorem verify_sound_rfc root data p i n : n < 2 ^ 64 ->
     verify leaf_sum node_sum D_eqb root data p i n = true ->
     root_from_path node_sum (leaf_sum data) p (N.to_nat i) (N.to_nat n) = Some root.
   Proof. intros Hb H. apply (verify_iff leaf_sum node_sum D_eqb D_eqb_spec) in H; assumption. Qed.
@@ -613,7 +616,7 @@ Section Corollaries.
      that index, and the proof is the RFC audit path *)
   Theorem verify_sound (ls : list bytes) data p i :
     (forall a b c d, node_sum a b = node_sum c d -> a = c /\ b = d) ->
-    lenN ls <= 2 ^ 63 ->
+    lenN ls < 2 ^ 64 ->
     verify leaf_sum node_sum D_eqb (MTH ls) data p i (lenN ls) = true ->
     exists d, nth_error ls (N.to_nat i) = Some d /\ leaf_sum data = leaf_sum d /\ p = PATH (N.to_nat i) ls.
   Proof.
